@@ -94,8 +94,25 @@ pub fn random_path(rng: &mut Rng, class: PathClass) -> String {
                     1..=4 => rng.range(65_530, 70_000),
                     _ => *rng.pick(&[255u64, 256, 1000, 4095, 4096, 4097]),
                 };
-                for i in 0..n {
-                    s.push(if i % 17 == 16 { '/' } else { (b'a' + (i % 26) as u8) as char });
+                if rng.chance(1, 2) {
+                    for i in 0..n {
+                        s.push(if i % 17 == 16 { '/' } else { (b'a' + (i % 26) as u8) as char });
+                    }
+                } else {
+                    // the same length in BYTES, made of characters of one to four bytes, with a
+                    // random phase: multi-byte characters straddle every power-of-two offset
+                    for _ in 0..rng.below(10) {
+                        s.push('x');
+                    }
+                    let unit = ['a', '\u{e9}', '\u{65e5}', '\u{1F4BE}', 'b', '/', '\u{3b1}', 'c', '\u{4e2d}', '\u{301}'];
+                    let mut k = rng.usize_below(unit.len());
+                    while (s.len() as u64) + 4 <= n {
+                        s.push(unit[k % unit.len()]);
+                        k += 1;
+                    }
+                    while (s.len() as u64) < n {
+                        s.push('z');
+                    }
                 }
                 s
             } else if rng.chance(1, 8) {
